@@ -227,13 +227,18 @@ def encodings_of(rng, seed, profile, index, nrand):
     # sections (the second one finds, and grows, the table of the first): a custom section never invalidates a module
     if nfun:
         nimp = len(m.imported("func"))
-        for variant in ("early", "twice", "early-imports-only"):
+        for variant in ("early", "twice", "early-imports-only", "twice-grow"):
             mm = module_for(seed, profile, index)
             mm.customs = [c for c in mm.customs if not isinstance(c.payload, A.NameSection)]
-            if variant == "early-imports-only" and not nimp:
+            if variant in ("early-imports-only", "twice-grow") and not nimp:
                 continue
-            upto = nimp if variant == "early-imports-only" else nfun
+            # twice-grow: the first section names the imported functions only (all that is known there), the second one,
+            # at the end, finds the table of the first and grows it
+            upto = nimp if variant in ("early-imports-only", "twice-grow") else nfun
             mm.customs.append(A.CustomSection(b"name", A.NameSection(module_name=b"m", func_names=[(i, b"fn_%d" % i) for i in range(upto)]), 2))
+            if variant == "twice-grow":
+                # … but the second one names the last function only: the other added slots must start out empty
+                mm.customs.append(A.CustomSection(b"name", A.NameSection(func_names=[(nfun - 1, b"last")]), 12))
             if variant == "twice":
                 mm.customs.append(A.CustomSection(b"name", A.NameSection(func_names=[(i, b"gn_%d" % (i % max(1, nfun - 1))) for i in range(nfun)]), 12))
             out.append((f"names-{variant}", encode(mm, Policy("random" if variant == "twice" else "minimal", rng))))
@@ -603,6 +608,14 @@ def run_modules(chk, d, repo, broken):
         flagged = bool(reports.get(j)) or sreal[j].startswith("crash")
         mub = smodel[j].startswith("ub ")
         san_hist[(smodel[j].split(";")[0] if mub else "defined") + "/" + ("flagged" if flagged else "clean")] += 1
+        if flagged and i < len(cases):
+            # a VALID encoding on which the real reader performs an undefined operation (sanitizer report / crash)
+            g, tag, b, dbg = allcases[i]
+            chk.violation(f"valid-encoding-undefined-behaviour-{tag.split('@')[0].split(':')[0].rstrip('0123456789')}",
+                          f"the sanitized real reader{' -g' if dbg else ''} reports an undefined operation on a valid encoding ({tag}) of module {g}: "
+                          + str(reports.get(j) or sreal[j])[:200],
+                          {"module": g, "encoding": tag, "hex": b.hex(), "mode": "reader-sanitized", "debug": dbg,
+                           "replay_cmd": "python3 tools/check.py C08 --replay <this file>"}, True)
         if flagged != mub and smodel[j] != "ub codeSizeUnderflow":
             broken.append({"kind": "correspondence",
                            "msg": f"reader-dump(sanitized) {allcases[i][0]} {allcases[i][1]}: sanitizer {reports.get(j) or sreal[j][:60]} vs model `{smodel[j][:80]}`",
@@ -864,6 +877,12 @@ def replay(path):
             out, _ = rd.run_lines(exe, [rd.line_for(bytes.fromhex(r["hex"]), dbg)])
             print("real reader:", out[0][:300])
             return 0 if out[0].startswith("ok") else 1
+        if mode == "reader-sanitized":
+            exe = rd.build(repo, d, sanitize=True)
+            out, reports = rd.run_lines(exe, [rd.line_for(bytes.fromhex(r["hex"]), dbg, True)], sanitized=True)
+            bad = bool(reports.get(0)) or out[0].startswith("crash")
+            print("sanitized real reader:", out[0][:200], reports.get(0))
+            return 1 if bad else 0
         if mode == "reader-pair":
             exe = rd.build(repo, d)
             out, _ = rd.run_lines(exe, [rd.line_for(bytes.fromhex(h), dbg) for h in r["hex"]])
